@@ -150,6 +150,15 @@ VARIANTS = {
 }
 
 
+# engine statistics that are not obligations (work done by the fixpoint, not what was decided)
+VOLATILE = ("resolved_calls", "unresolved_calls", "python_rounds")
+
+
+def _short_diff(a: str | None, b: str | None) -> str:
+    ta, tb = (a or "").split(" "), (b or "").split(" ")
+    return " | ".join(f"{x} -> {y}" for x, y in zip(ta, tb) if x != y)[:300] or f"{a} -> {b}"[:300]
+
+
 def verdict(root: Path) -> tuple[dict[str, str], list[str]]:
     p = subprocess.run([str(V / "check"), "ALL", "--root", str(root)], capture_output=True, text=True, cwd=str(V),
                        env=dict(os.environ, VERIF_NO_EVIDENCE="1"))
@@ -158,7 +167,16 @@ def verdict(root: Path) -> tuple[dict[str, str], list[str]]:
     for line in p.stdout.splitlines():
         if line.startswith("RESULT "):
             _, prop, rc = line.split()
-            res[prop] = rc
+            res[prop] = rc + res.get(prop, "")
+        m = re.match(r"\[(C\d+)\] tier=\w+ (obligations=\d+ discharged=\d+ known=\d+) .*?indexed=(\{.*\}) wall", line)
+        if m:
+            # the same obligations must be generated and discharged: a rule that silently loses its instances is as wrong as one that fires
+            import json as _json
+
+            idx = _json.loads(m.group(3))
+            for k in VOLATILE:
+                idx.pop(k, None)
+            res[m.group(1)] = res.get(m.group(1), "") + " " + m.group(2) + " " + _json.dumps(idx, sort_keys=True)
         if line.startswith("KNOWN-FINDING:"):
             known.append(line.split(" :: ")[0])
     return res, sorted(known), p.stdout
@@ -177,7 +195,7 @@ def main() -> int:
                 ast.parse(p.read_text())
             res, known, out = verdict(root)
             same = res == base_res and known == base_known
-            diffs = {k: (base_res.get(k), res.get(k)) for k in set(res) | set(base_res) if res.get(k) != base_res.get(k)}
+            diffs = {k: _short_diff(base_res.get(k), res.get(k)) for k in set(res) | set(base_res) if res.get(k) != base_res.get(k)}
             kd = sorted(set(known) ^ set(base_known))
             print(f"{'SILENT' if same else 'DIFFERS'} variant={name} result_diffs={diffs} known_diffs={kd[:4]}")
             if not same:
